@@ -262,6 +262,10 @@ func c12Universe() []GM {
 	add(func(g *GM) { g.Frames[0].File = "/b/f.go" })
 	add(func(g *GM) { g.Frames[0].File = "/a/v2/f.go" })
 	add(func(g *GM) { c := *g.Creator; c.File = "/b/s.go"; g.Creator = &c })
+	// the same stack and creator in another state (a nil channel next to a real one, a worker
+	// just woken next to a parked one)
+	add(func(g *GM) { g.State = "chan receive" })
+	add(func(g *GM) { g.State = "chan receive (nil chan)" })
 	// started by the same go statement from different parents (go >= 1.21 prints the parent)
 	for _, parent := range []int{5, 7} {
 		add(func(g *GM) { c := *g.Creator; c.Parent = parent; g.Creator = &c })
